@@ -20,6 +20,13 @@ Two case kinds.
       list through rdflib's Turtle parser.
       Oracle (independent of Lean): a real Python list subjected to the same operations.
 
+  {"kind": "two", …as "hist" with init mode "triples"…, "second": {"items": [ids], "share": k | null, "junk": [[s,p,o]…]}}
+      (round g) The same history on a graph that ALSO holds a second collection (head 200, private cells 200…) which
+      either ends in rdf:nil (disjoint) or is linked into the first collection's k-th cell (shared tail), plus stray
+      list triples on other subjects.  The first collection must behave exactly like the list (footprint taken
+      without the foreign subjects), every triple with a foreign subject must stay as it is, a disjoint second
+      collection must keep its list; what a tail-sharing second collection reads afterwards is compared with the model.
+
   {"kind": "broken", "head": …, "triples": [[s,p,o]…], "reads": [["len"]|["iter"]|["get",i]|["index",x]|["contains",x]]}
       Cyclic / broken chains written directly; every read must return or raise (watchdog in core),
       and full traversals of a cyclic chain must raise.
@@ -43,7 +50,10 @@ LEAN_TARGETS = ["RV.C19.Props", "RV.C19.Audit"]
 AUDIT = "RV/C19/Audit.lean"
 DRIVER = "drv_c19"
 CASES = {"quick": 1400, "thorough": 40000, "search": 20000}
-RULE = ("histories (1-12 ops) of append / += (operand as list, tuple, generator, iter(list), map, dict keys view, "
+RULE = ("(round g: after every op also list(g.items(head)), the text of c.n3() and its read-back by the Turtle parser; "
+        "16 % of the cases run the history on a graph that also holds a second collection, disjoint or linked into a cell "
+        "of the first, and stray list triples: own footprint, foreign triples untouched, second list) "
+        "histories (1-12 ops) of append / += (operand as list, tuple, generator, iter(list), map, dict keys view, "
         "another Collection, the collection itself) / Collection(g, head, seq) re-opened on the list in mid-history / "
         "item assignment / item deletion / clear on Collection(g, head) from "
         "start lengths 0-5 built by the constructor or from hand-written triples, members from a falsy-aware vocabulary "
@@ -59,6 +69,7 @@ TRUSTED = ["harness/c19.py generators, canonicalisation and the independent chai
 
 FIRST, REST, NIL = 0, 1, 2
 HEAD = 100
+HEAD2, JUNK, FOREIGN = 200, 300, (200, 399)
 MEMBERS = {
     10: URIRef("http://e/a"), 11: BNode("m1"), 12: Literal(0), 13: Literal(""), 14: Literal(False),
     15: Literal("x"), 16: Literal(1), 17: Literal("1"), 18: Literal("0"), 19: Literal("", lang="en"),
@@ -73,6 +84,11 @@ def _terms(head_kind):
     t.update(OTHER)
     for i in range(HEAD, HEAD + 64):
         t[i] = BNode(f"c{i}")
+    for i in range(HEAD2, HEAD2 + 8):       # private cells of a second collection in the same graph
+        t[i] = BNode(f"d{i}")
+    t[HEAD2] = URIRef("http://e/list2") if head_kind == "u" else t[HEAD2]
+    for i in range(JUNK, JUNK + 4):         # subjects of stray list triples
+        t[i] = BNode(f"j{i}")
     if head_kind == "u":
         t[HEAD] = URIRef("http://e/list")
     return t
@@ -258,9 +274,39 @@ def _gen_broken(rng, tier):
             "reads": reads}
 
 
+def _gen_two(rng, tier):
+    case = _gen_hist(rng, tier)
+    case["kind"] = "two"
+    case["init"]["mode"] = "triples"
+    ops = case["ops"]
+    if ops and ops[-1][0] == "set":          # no C19-K1 here: a trailing set may be the one at index len
+        ops.pop()
+    if not ops:
+        ops.append(["append", rng.choice(list(MEMBERS))])
+    n1 = len(case["init"]["items"])
+    voc = case["probe"] or list(MEMBERS)
+    items2 = [rng.choice(voc) for _ in range(rng.choice([1, 1, 2, 3]))]
+    share = rng.randrange(n1) if n1 and rng.random() < 0.6 else None
+    junk = []
+    if rng.random() < 0.4:
+        junk.append([JUNK, FIRST, rng.choice(voc)])
+        r = rng.random()
+        if r < 0.4:
+            junk.append([JUNK, REST, JUNK + 1])                          # dangling
+        elif r < 0.7 and n1:
+            junk.append([JUNK, REST, HEAD + rng.randrange(n1)])          # points into the first collection
+        if rng.random() < 0.3:
+            junk.append([JUNK + 2, 5, HEAD])
+    case["second"] = {"items": items2, "share": share, "junk": junk}
+    return case
+
+
 def gen_case(rng, tier, i):
-    if rng.random() < 0.14:
+    r = rng.random()
+    if r < 0.14:
         return _gen_broken(rng, tier)
+    if r < 0.30:
+        return _gen_two(rng, tier)
     return _gen_hist(rng, tier)
 
 
@@ -283,9 +329,9 @@ def _call(f):
         return _exc(e), None
 
 
-def _footprint(g, head, T, rev):
+def _footprint(g, head, T, rev, foreign=()):
     """Independent walker over plain triple lookups (no Graph.items / Graph.value / Collection)."""
-    lt = [(s, p, o) for s, p, o in g.triples((None, None, None)) if p in (RDF.first, RDF.rest)]
+    lt = [(s, p, o) for s, p, o in g.triples((None, None, None)) if p in (RDF.first, RDF.rest) and s not in foreign]
     by = {}
     for s, p, o in lt:
         by.setdefault(s, {RDF.first: [], RDF.rest: []})[p].append(o)
@@ -308,7 +354,7 @@ def _footprint(g, head, T, rev):
     if status == "ok" and orphans:
         status = "orphans=%d" % len(orphans)
     extra = sorted((rev.get(s, 999), rev.get(p, 999), rev.get(o, 999))
-                   for s, p, o in g.triples((None, None, None)) if p not in (RDF.first, RDF.rest))
+                   for s, p, o in g.triples((None, None, None)) if p not in (RDF.first, RDF.rest) and s not in foreign)
     return status, len(lt), vals, extra
 
 
@@ -324,7 +370,7 @@ def _show(kind, v, rev):
     return str(rev.get(v, 999))
 
 
-def _snapshot(c, g, head, T, rev, l, probe, viol, where, extra0):
+def _snapshot(c, g, head, T, rev, l, probe, viol, where, extra0, foreign=()):
     n = len(l)
     parts = []
     k, v = _call(lambda: list(c))
@@ -360,7 +406,7 @@ def _snapshot(c, g, head, T, rev, l, probe, viol, where, extra0):
             viol.append(f"contains: {where}: ({x} in c) gives {cs[-1]} but the list is {l}")
     parts.append("I=" + ";".join(ix))
     parts.append("C=" + ";".join(cs))
-    status, nlt, vals, extra = _footprint(g, head, T, rev)
+    status, nlt, vals, extra = _footprint(g, head, T, rev, foreign)
     parts.append(f"F={status},{nlt}")
     parts.append("X=" + (";".join(".".join(map(str, t)) for t in extra) or "-"))
     if status != "ok":
@@ -375,6 +421,29 @@ def _snapshot(c, g, head, T, rev, l, probe, viol, where, extra0):
 
 
 _S, _P = URIRef("http://e/s"), URIRef("http://e/p")
+
+
+def _second_triples(sec):
+    n2 = len(sec["items"])
+    last = NIL if sec["share"] is None else HEAD + sec["share"]
+    return _chain([HEAD2 + k for k in range(n2)], sec["items"], last=last) + [list(t) for t in sec["junk"]]
+
+
+def _second(g, T, rev, fset, sec, f0, viol, where, stats):
+    """the other collection read through its own head, and every triple with a foreign subject"""
+    c2 = Collection(g, T[HEAD2])
+    k, v = _call(lambda: list(c2))
+    k2, n = _call(lambda: len(c2))
+    ft = sorted((rev.get(s, 999), rev.get(p, 999), rev.get(o, 999)) for s, p, o in g if s in fset)
+    if ft != f0:
+        viol.append(f"frame2: {where}: triples of another collection / stray list triples changed: {f0} -> {ft}")
+    if sec["share"] is None and (k != "ok" or [rev.get(x, 999) for x in v] != sec["items"]):
+        viol.append(f"second: {where}: a disjoint second collection in the same graph now reads {_show(k, v, rev)}, "
+                    f"it was {sec['items']}")
+    if sec["share"] is not None and (k != "ok" or [rev.get(x, 999) for x in v][:len(sec["items"])] != sec["items"]):
+        viol.append(f"second: {where}: the private prefix of the tail-sharing collection reads {_show(k, v, rev)}, "
+                    f"it was {sec['items']}")
+    return f"L2={_show(k, v, rev)} N2={_show(k2, n, rev)} F2=" + (";".join(".".join(map(str, t)) for t in ft) or "-")
 
 
 def _read_n3_list(txt):
@@ -452,13 +521,23 @@ def _run_hist(case):
         c = g.collection(head) if len(case["ops"]) % 2 else Collection(g, head)
         obs.append("ok")
     l = list(items)
-    obs.append(_snapshot(c, g, head, T, rev, l, case["probe"], viol, "at start", extra0))
+    sec, fset, f0 = case.get("second"), (), []
+    if sec:
+        for s_, p_, o_ in _second_triples(sec):
+            g.add((T[s_], T[p_], T[o_]))
+        fset = {T[i] for i in range(FOREIGN[0], FOREIGN[1] + 1) if i in T}
+        f0 = sorted(set(map(tuple, _second_triples(sec))))
+    obs.append(_snapshot(c, g, head, T, rev, l, case["probe"], viol, "at start", extra0, fset))
     mutated, seen = False, {}
     stats = {"hist": 1, "start_len_%d" % len(items): 1, "mode_" + case["init"]["mode"]: 1,
              "graph_" + case.get("g", "mem"): 1}
     if case["init"]["mode"] == "ctor":
         stats["init_shape_" + case["init"].get("shape", "list")] = 1
     obs.append(_ext(c, g, head, T, rev, l, viol, "at start", seen, stats))
+    if sec:
+        stats.update({"two": 1, "two_shared" if sec["share"] is not None else "two_disjoint": 1,
+                      "two_junk": int(bool(sec["junk"]))})
+        obs.append(_second(g, T, rev, fset, sec, f0, viol, "at start", stats))
     for j, op in enumerate(case["ops"]):
         kind = op[0]
         n = len(l)
@@ -522,15 +601,17 @@ def _run_hist(case):
             viol.append(f"{tag}: op {j} {op} on the list of length {n}: the collection gives {k}, the list {want}")
         if k == "ok" and n > 0 and kind != "clear":
             mutated = True
-        obs.append(_snapshot(c, g, head, T, rev, l, case["probe"], viol, f"after op {j} {op}", extra0))
+        obs.append(_snapshot(c, g, head, T, rev, l, case["probe"], viol, f"after op {j} {op}", extra0, fset))
         obs.append(_ext(c, g, head, T, rev, l, viol, f"after op {j} {op}", seen, stats))
+        if sec:
+            obs.append(_second(g, T, rev, fset, sec, f0, viol, f"after op {j} {op}", stats))
     if not _decoy_ok(ds):
         viol.append("frame: the same head's list in another graph of the dataset was touched")
     if any(x in FALSY for x in items) or any(x in FALSY for op in case["ops"] for x in
                                              (op[1] if op[0] in ("iadd", "ctor") else op[1:])):
         stats["falsy_member"] = 1
     return {"obs": obs, "viol": viol, "nontrivial": mutated,
-            "key": repr((case["head"], case["init"], case["ops"])), "stats": stats}
+            "key": repr((case["head"], case["init"], case["ops"], case.get("second"))), "stats": stats}
 
 
 def _run_broken(case):
@@ -597,7 +678,7 @@ def run_impl(case):
     if rem > 0:
         signal.setitimer(signal.ITIMER_REAL, rem, 0.2)
     try:
-        return _run_hist(case) if case["kind"] == "hist" else _run_broken(case)
+        return _run_hist(case) if case["kind"] in ("hist", "two") else _run_broken(case)
     except core.CaseTimeout:
         signal.setitimer(signal.ITIMER_REAL, 0)
         raise
@@ -628,9 +709,18 @@ def model_lines(case):
         for t in _chain([HEAD + k for k in range(len(items))], items):
             lines.append("t " + " ".join(map(str, t)))
         lines.append("nop")
+    sec = case.get("second")
+    if sec:
+        ft = []
+        for t in _second_triples(sec):
+            if t not in ft:
+                ft.append(t)
+        lines[-1:-1] = [f"foreign {FOREIGN[0]} {FOREIGN[1]}"] + ["t " + " ".join(map(str, t)) for t in ft]
     l = list(items)
     lines.append(_snapline(len(l), case["probe"]))
     lines.append("ext")
+    if sec:
+        lines.append(f"second {HEAD2}")
     for op in case["ops"]:
         n = len(l)
         if op[0] == "append":
@@ -655,6 +745,8 @@ def model_lines(case):
             l.clear(); lines.append("clear")
         lines.append(_snapline(len(l), case["probe"]))
         lines.append("ext")
+        if sec:
+            lines.append(f"second {HEAD2}")
     return lines
 
 
@@ -680,6 +772,8 @@ def select_model_obs(case, out):
     if case["kind"] == "broken":
         return _n3_terms(case, out[1 + len(case["triples"]):])
     n0 = 1 + len(case["extra"]) + (0 if case["init"]["mode"] == "ctor" else 2 * len(case["init"]["items"]))
+    if case.get("second"):
+        n0 += 1 + len({tuple(t) for t in _second_triples(case["second"])})
     return _n3_terms(case, out[n0:])
 
 
@@ -695,6 +789,23 @@ def shrink(case):
             yield {**case, "triples": ts[:i] + ts[i + 1:]}
         return
     ops, items = case["ops"], case["init"]["items"]
+    sec = case.get("second")
+    if sec:
+        # (the start list is not shortened while a second collection hangs on one of its cells)
+        for i in range(len(ops) - 1, -1, -1):
+            yield {**case, "ops": ops[:i] + ops[i + 1:]}
+        if sec["junk"]:
+            yield {**case, "second": {**sec, "junk": sec["junk"][:-1]}}
+        if len(sec["items"]) > 1:
+            yield {**case, "second": {**sec, "items": sec["items"][1:]}}
+        if sec["share"] is None:
+            for i in range(len(items)):
+                yield {**case, "init": {**case["init"], "items": items[:i] + items[i + 1:]}}
+        if case["extra"]:
+            yield {**case, "extra": case["extra"][:-1]}
+        if case.get("g", "mem") != "mem":
+            yield {**case, "g": "mem"}
+        return
     if len(ops) > 1:            # fold the first operation into the start list
         l, ok = _apply(list(items), ops[0])
         if ok and len(l) < 60:
@@ -759,7 +870,7 @@ def _m_set_at_len(case, result):
     """C19-K1: the LAST operation of the history is `c[len(c)] = x` (index = the list's length at that moment),
     the collection accepts it where the list raises IndexError, and nothing is reported before that operation
     (what is reported after it are the consequences of the rdf:first written onto rdf:nil / the empty head)."""
-    if case.get("kind") != "hist" or not case["ops"]:
+    if case.get("kind") != "hist" or not case["ops"] or case.get("second"):
         return False
     l = list(case["init"]["items"])
     for op in case["ops"][:-1]:
